@@ -56,7 +56,9 @@ PRINTABLE = ''.join(chr(i) for i in range(32, 127))
 def generate(ctx):
     path, t = gen_mdl.generate()
     _state['tables'] = t
-    return [path]
+    from ..gen import gen_periodic
+    ppath = gen_periodic.generate()[0]     # `symbols_fit` is proved over the regenerated element table
+    return [path, ppath]
 
 
 # ------------------------------------------------------------------------------------------------
